@@ -11,8 +11,8 @@ from props import base
 from props.base import Context  # noqa: F401
 
 PID = 'C13'
-TIE_MODULES = ['DiffxVerif.Tie.Hunks']
-NEEDS = ['hunks', 'dom', 'text']
+TIE_MODULES = ['DiffxVerif.Tie.Hunks', 'DiffxVerif.Tie.RegexHunks']
+NEEDS = ['hunks', 'dom', 'text', 're_hunks']
 ASSUMPTIONS = [
     'diffs are assembled from generated hunks with known counts (harness/domgen.gen_hunk_diff); ground truth is by construction, independent of the hunk parser',
     'D15 classifier: the diff encoding maps "@ +-\\\\" to bytes other than their ASCII values (UTF-16/32, EBCDIC)',
